@@ -124,13 +124,14 @@ Proof.
 Qed.
 
 (* ------------------------------------------------------------------ *)
-(* shape of one step: 10 cases
-   Begin (table full) | Begin | Sent true | Sent false | BulkFail | Notify (entry) | Notify (none) | Skip | Timeout | End *)
+(* shape of one step: 11 cases
+   Begin (table full) | Begin | Sent true | Sent false | BulkFail | Notify (entry) | Notify (none) | Skip | Tick |
+   Timeout | End *)
 
 Ltac step_cases H :=
   match type of H with
   | step ?fx ?s ?e = Ok ?s1 =>
-      destruct e as [p | p ok | nb | j | | p | p]; cbn [step] in H;
+      destruct e as [p tmo | p ok | nb | j | | tk | p | p]; cbn [step] in H;
       [ destruct (pget (pings s) p) eqn:Ep; [discriminate|];
         destruct (table_full (tbl s)) eqn:Efull;
         [ inversion H; subst s1; clear H
@@ -145,8 +146,11 @@ Ltac step_cases H :=
           destruct (p_closed pgq) eqn:Ecl; [discriminate|]; inversion H; subst s1; clear H
         | inversion H; subst s1; clear H ]
       | inversion H; subst s1; clear H
+      | destruct (clock s <=? tk)%Z eqn:Etk; [|discriminate]; inversion H; subst s1; clear H
       | destruct (pget (pings s) p) as [pgp|] eqn:Ep; [|discriminate];
-        destruct (p_phase pgp) eqn:Eph; try discriminate; inversion H; subst s1; clear H
+        destruct (p_phase pgp) eqn:Eph; try discriminate;
+        destruct (t_armed (p_time pgp) + t_eff (p_time pgp) <=? clock s)%Z eqn:Edl; [|discriminate];
+        inversion H; subst s1; clear H
       | destruct (pget (pings s) p) as [pgp|] eqn:Ep; [|discriminate];
         destruct (p_phase pgp) eqn:Eph; try discriminate;
         destruct (p_closed pgp || p_fired pgp) eqn:Erdy; [|discriminate]; inversion H; subst s1; clear H ]
@@ -309,6 +313,7 @@ Proof.
       * apply Hi.
   - constructor; auto.
   - constructor; auto.
+  - constructor; cbn [tbl pings next]; auto.
   - (* Timeout *)
     unfold set_pings. constructor; cbn [tbl pings next]; auto.
     + eapply Hkeep; eauto.
@@ -336,7 +341,7 @@ Proof. intros Hn. apply run_ind; [apply Inv_init; exact Hn|]. intros; eapply Inv
 
 Lemma step_no_panic fx s e : Inv s -> step fx s e <> Panic.
 Proof.
-  intros [He _ _ _ _]. destruct e as [p | p ok | nb | i | | p | p]; cbn [step]; try discriminate.
+  intros [He _ _ _ _]. destruct e as [p tmo | p ok | nb | i | | tk | p | p]; cbn [step]; try discriminate.
   - destruct (pget (pings s) p); [discriminate|]. destruct (table_full (tbl s)); [discriminate|].
     destruct (alloc (tbl s) (next s)); discriminate.
   - destruct (pget (pings s) p) as [pg|]; [|discriminate]. destruct (p_phase pg); try discriminate.
@@ -344,7 +349,9 @@ Proof.
   - destruct (fx && (nb <=? 65536)); discriminate.
   - destruct (tget (tbl s) i) as [q|] eqn:Eq; [|discriminate].
     destruct (He _ _ Eq) as (pg & Hp & _ & Hc & _). rewrite Hp, Hc. discriminate.
-  - destruct (pget (pings s) p) as [pg|]; [|discriminate]. destruct (p_phase pg); discriminate.
+  - destruct (clock s <=? tk)%Z; discriminate.
+  - destruct (pget (pings s) p) as [pg|]; [|discriminate]. destruct (p_phase pg); try discriminate.
+    destruct (_ <=? clock s)%Z; discriminate.
   - destruct (pget (pings s) p) as [pg|]; [|discriminate]. destruct (p_phase pg); try discriminate.
     destruct (p_closed pg || p_fired pg); discriminate.
 Qed.
@@ -362,7 +369,7 @@ Qed.
 (* the allocation loop of icmpRegister terminates: no reachable state makes a step run out of fuel *)
 Lemma step_no_fuel fx s e : Inv s -> step fx s e <> Fuel.
 Proof.
-  intros [He _ Hnd Hx _]. destruct e as [p | p ok | nb | i | | p | p]; cbn [step]; try discriminate.
+  intros [He _ Hnd Hx _]. destruct e as [p tmo | p ok | nb | i | | tk | p | p]; cbn [step]; try discriminate.
   - destruct (pget (pings s) p); [discriminate|]. destruct (table_full (tbl s)) eqn:Ef; [discriminate|].
     destruct (alloc (tbl s) (next s)) eqn:Ea; [discriminate|].
     exfalso. eapply first_free_total; eauto.
@@ -371,7 +378,9 @@ Proof.
   - destruct (fx && (nb <=? 65536)); discriminate.
   - destruct (tget (tbl s) i) as [q|]; [|discriminate].
     destruct (pget (pings s) q) as [pg|]; [|discriminate]. destruct (p_closed pg); discriminate.
-  - destruct (pget (pings s) p) as [pg|]; [|discriminate]. destruct (p_phase pg); discriminate.
+  - destruct (clock s <=? tk)%Z; discriminate.
+  - destruct (pget (pings s) p) as [pg|]; [|discriminate]. destruct (p_phase pg); try discriminate.
+    destruct (_ <=? clock s)%Z; discriminate.
   - destruct (pget (pings s) p) as [pg|]; [|discriminate]. destruct (p_phase pg); try discriminate.
     destruct (p_closed pg || p_fired pg); discriminate.
 Qed.
@@ -427,6 +436,7 @@ Proof.
     + eapply Ho; eauto.
   - eapply Ho; eauto.
   - eapply Ho; eauto.
+  - eapply Ho; eauto.
   - destruct (Nat.eqb_spec qq p); [reflexivity|]. eapply Ho; eauto.
   - rewrite tget_tdel_own in Hq.
     assert (Hq' : tget (tbl s) ii = Some qq) by (destruct (_ && _); [discriminate|exact Hq]).
@@ -472,7 +482,7 @@ Qed.
 Theorem no_leak_refuted :
   exists tr s, known_C19_sendfail tr = true /\ run false init_go tr = Ok s /\ ~ owned_by_waiting s.
 Proof.
-  exists [Begin 0%nat; Sent 0%nat false]. eexists. split; [reflexivity|]. split; [vm_compute; reflexivity|].
+  exists [Begin 0%nat 0%Z; Sent 0%nat false]. eexists. split; [reflexivity|]. split; [vm_compute; reflexivity|].
   intros H. specialize (H 1 0%nat eq_refl). discriminate.
 Qed.
 
@@ -486,7 +496,8 @@ Qed.
 
 (* non-vacuity: a history with calls, replies and timeouts satisfying the hypotheses *)
 Definition ex_trace : list event :=
-  [Begin 0%nat; Sent 0%nat true; Begin 1%nat; Notify 2; Sent 1%nat true; Timeout 0%nat; End 1%nat; End 0%nat].
+  [Begin 0%nat 0%Z; Sent 0%nat true; Begin 1%nat (-5)%Z; Notify 2; Sent 1%nat true; Tick (2 * SECOND)%Z;
+   Timeout 0%nat; End 1%nat; End 0%nat].
 Example no_leak_nonvacuous :
   exists s, known_C19_sendfail ex_trace = false /\ run false init_go ex_trace = Ok s /\
             result_of s 0%nat = Some RTimeout /\ result_of s 1%nat = Some RNil /\ tbl s = [].
